@@ -117,3 +117,10 @@ package payload
 //@   on return assert names-are-local: r0 != nil ==> forall(k, 0, len(binReader.meta), local(binReader.meta[k].Name) && (binReader.meta[k].Renamed == "" || local(binReader.meta[k].Renamed))) && as(r0, *Decoder) == binReader
 //@   on return assert names-are-inside: r0 != nil ==> forall(k, 0, len(binReader.meta), pathclean(binReader.meta[k].Name) != "." && (binReader.meta[k].Renamed == "" || pathclean(binReader.meta[k].Renamed) != "."))
 //@   loop 1 invariant -1 <= rangeindex && rangeindex < len(binReader.meta) && forall(k, 0, rangeindex+1, local(binReader.meta[k].Name) && (binReader.meta[k].Renamed == "" || local(binReader.meta[k].Renamed)) && pathclean(binReader.meta[k].Name) != "." && (binReader.meta[k].Renamed == "" || pathclean(binReader.meta[k].Renamed) != "."))
+
+// the goroutine that feeds the header bytes to the JSON decoder: when the copy ends - complete or
+// not - the pipe is closed, so that a header shorter than announced is refused (the decoder sees the
+// end of its input) instead of being waited for forever (C13: "a malformed header ... is refused")
+//@ func NewDecoder$1
+//@   on return assert header-pipe-is-closed: called((*io.PipeWriter).Close) || called((*io.PipeWriter).CloseWithError)
+//@   modifies everything
